@@ -96,8 +96,9 @@ example : Output.evtCommunicating ∈ (step {} (run {} [.enable, .linkSelected])
 neither wait can last for ever), and COMMUNICATING implies a selected link -/
 theorem timers_pending (cfg : Cfg) (h : List Input) :
     let s := (run cfg h).1
-    (s.t3Armed = true ↔ s.comm = .waitCra) ∧ (s.delayArmed = true ↔ s.comm = .waitDelay) ∧ (s.comm = .communicating → s.link = true) :=
-  ⟨(cinv_run cfg h).t3, (cinv_run cfg h).dly, (cinv_run cfg h).up⟩
+    (s.t3Armed = true ↔ s.comm = .waitCra) ∧ (s.delayArmed = true ↔ s.comm = .waitDelay) ∧
+    (s.comm = .communicating → s.selected = true) ∧ (s.selected = true → s.connected = true) :=
+  ⟨(cinv_run cfg h).t3, (cinv_run cfg h).dly, (cinv_run cfg h).up, (cinv_run cfg h).sc⟩
 
 /-- unanswered: the reply timeout in WAIT_CRA starts the establish-communications delay -/
 theorem retry_on_timeout (cfg : Cfg) (h : List Input) (hc : (run cfg h).1.comm = .waitCra) :
@@ -110,7 +111,7 @@ theorem retry_on_timeout (cfg : Cfg) (h : List Input) (hc : (run cfg h).1.comm =
   simp [step, perform_eq, allowed, leaveEffects_eq, enterEffects_eq]
 
 /-- refused: an S1F14 with COMMACK ≠ 0 (answering the outstanding S1F13, where the variant looks) in WAIT_CRA starts the delay -/
-theorem retry_on_refusal (cfg : Cfg) (h : List Input) (hc : (run cfg h).1.comm = .waitCra) (hl : (run cfg h).1.link = true)
+theorem retry_on_refusal (cfg : Cfg) (h : List Input) (hc : (run cfg h).1.comm = .waitCra) (hl : (run cfg h).1.selected = true)
     (w : Bool) (sys c : Nat) (hne : c ≠ 0) (hsys : cfg.sysChecked = true → (run cfg h).1.mySys = some sys) :
     let r := step cfg (run cfg h).1 (.rx 1 14 w sys (some c))
     r.1.comm = .waitDelay ∧ r.1.delayArmed = true ∧ r.1.t3Armed = false := by
@@ -124,21 +125,26 @@ theorem retry_on_refusal (cfg : Cfg) (h : List Input) (hc : (run cfg h).1.comm =
     · simp [step, onMessage, dispatchRow_eq, hs, hsys hs, perform_eq, allowed, leaveEffects_eq, enterEffects_eq]
     · simp [step, onMessage, dispatchRow_eq, hs, perform_eq, allowed, leaveEffects_eq, enterEffects_eq]
 
-/-- after the delay: back to WAIT_CRA, reply timer pending, a fresh S1F13 handed to the protocol — written at once if the
-link is up, queued (and written when the link returns) if it is down -/
+/-- after the delay: back to WAIT_CRA, reply timer pending, a fresh S1F13 handed to the protocol — written at once if a
+connection exists (selected or not), queued (and written first thing on the next connection) if there is none -/
 theorem retry_after_delay (cfg : Cfg) (h : List Input) (hc : (run cfg h).1.comm = .waitDelay) :
     let s := (run cfg h).1
     let r := step cfg s .delayExpired
     r.1.comm = .waitCra ∧ r.1.t3Armed = true ∧ r.1.delayArmed = false ∧ r.1.mySys = some s.nextSys ∧
-    (s.link = true → r.2 = [.txS1F13 s.nextSys]) ∧ (s.link = false → r.1.queued = s.queued ++ [s.nextSys]) := by
+    (s.connected = true → r.2 = [.txS1F13 s.nextSys]) ∧ (s.connected = false → r.1.queued = s.queued ++ [s.nextSys]) := by
   have ha := (cinv_run cfg h).dly.mpr hc
   generalize (run cfg h).1 = s at *
   obtain ⟨c, cn, l, a, b, n, m, q⟩ := s
   simp only at hc ha; subst hc; subst ha
-  cases l <;> simp [step, perform_eq, allowed, leaveEffects_eq, enterEffects_eq, sendS1F13]
+  cases cn <;> simp [step, perform_eq, allowed, leaveEffects_eq, enterEffects_eq, sendS1F13]
 
 /-- non-vacuity: WAIT_CRA and WAIT_DELAY are reachable with the link up -/
-example : (run {} [.enable, .linkSelected]).1.comm = .waitCra ∧ (run {} [.enable, .linkSelected]).1.link = true := by decide +kernel
+example : (run {} [.enable, .linkSelected]).1.comm = .waitCra ∧ (run {} [.enable, .linkSelected]).1.selected = true := by decide +kernel
+/-- … and a connected but not selected endpoint in WAIT_DELAY writes its S1F13 at once; with no connection it is the first frame of the next one -/
+example :
+    (step {} (run {} [.enable, .linkSelected, .t3Expired, .linkLost, .linkConnected]).1 .delayExpired).2 = [.txS1F13 1] ∧
+    (run {} [.enable, .linkSelected, .t3Expired, .linkLost, .delayExpired, .linkConnected]).2.getLast?.map (·.outputs) = some [.txS1F13 1] := by
+  decide +kernel
 example : (run {} [.enable, .linkSelected, .rx 1 14 false 0 (some 1)]).1.comm = .waitDelay := by decide +kernel
 
 /-! ## clause 3: loss of the link or disabling leaves the established state -/
@@ -154,11 +160,12 @@ theorem run_snoc (cfg : Cfg) (h : List Input) (i : Input) : (run cfg (h ++ [i]))
 theorem leave_on_loss (cfg : Cfg) (h : List Input) :
     (run cfg (h ++ [.linkLost])).1.comm ≠ .communicating ∧ (run cfg (h ++ [.disable])).1.comm ≠ .communicating := by
   have hu := (cinv_run cfg h).up
+  have hsc := (cinv_run cfg h).sc
   rw [run_snoc, run_snoc]
   generalize (run cfg h).1 = s at *
   obtain ⟨c, cn, l, a, b, n, m, q⟩ := s
   constructor
-  · cases l
+  · cases cn
     · intro hcm; simp [step] at hcm; simp_all
     · simp only [step, hooked_disc, forwards, lossStates, Bool.true_and]
       cases c <;> simp [perform_eq, allowed, leaveEffects_eq, enterEffects_eq]
